@@ -31,7 +31,7 @@ ASCII_WS = " \t\n\r\f\v"
 ATTRSETS = [
     [],
     [["id", "i"]],
-    [["title", "<&>\"'"], ["data-x", "l1\r\nl2"], ["lang", "é中"]],
+    [["title", "<&>\"'"], ["data-x", "l1\r\nl2"], ["lang", "é中"], ["alt", "say \"hi\" 'x'"]],
 ]
 VOID16 = sorted(VOID)
 CUSTOM = ["my-el", "x1", "A", "BR"]
